@@ -186,6 +186,7 @@ pub fn run(ctx: &mut Ctx) {
             ctx.nontrivial();
             ctx.transitions += 1;
             let r = catch_unwind(AssertUnwindSafe(|| if f.front == "attr" { derivelib::expand_attr(&f.src) } else { derivelib::expand_easy(&f.src) }));
+            ctx.outcome(&(f.kind, f.front, match &r { Ok(Err(e)) => e.chars().take(40).collect::<String>(), Ok(Ok(_)) => "accepted".to_string(), Err(_) => "panic".to_string() }));
             match r {
                 Ok(Err(_)) => ctx.count("faults_rejected", 1),
                 Err(p) => {
